@@ -30,7 +30,11 @@ CTX_D = {'macros': [['p', S('m', 'm0')], ['q', S('m0')], ['pm', S(['m0', '+'], '
 # not expressible in the Lean context type, exercised by the oracles only
 CTX_E = {'macros': [['li', ['LVA', '[']], ['mi', ['LVA', '{']], ['lm', ['LVA', '[{']], ['verb', ['LV']], ['z', S()]],
          'envs': [['en', S('o1'), False]], 'specials': [['~', S()]], 'um': S(), 'ue': [S(), False]}
-CONTEXTS = {'A': CTX_A, 'B': CTX_B, 'C': CTX_C, 'D': CTX_D, 'E': CTX_E, 'default': 'default'}
+# a user hook that raises a position-less parse error (tolerant mode must swallow it like any other parse error); oracle only
+CTX_F = {'macros': [['ref', ['SH', [['m', '']]]], ['so', ['SH', [['o1', ''], ['m', '']]]], ['m', S('m')], ['z', S()]],
+         'envs': [['en', ['SH', [['m', '']]], False]], 'specials': [['~', S()]], 'um': S(), 'ue': [S(), False]}
+CONTEXTS = {'A': CTX_A, 'B': CTX_B, 'C': CTX_C, 'D': CTX_D, 'E': CTX_E, 'F': CTX_F, 'default': 'default'}
+ATOMS_F = ['a', ' ', '\n', '{}', '{x}', '[]', '[o]', '{', '}', '$', '~', '\\ref', '\\so', '\\m', '\\z', '\\begin{en}', '\\end{en}', '%c\n']
 ATOMS_E = ['a', ' ', '\n', '{x}', '[o]', '|', '|c|', '!v!', '{', '}', '[', '$', '%c\n', '~', '\\li', '\\mi', '\\lm', '\\verb', '\\z', '+a[1]+', '\\begin{en}', '\\end{en}']
 ATOMS_D = ['a', ' ', '\n', '{', '}', '[', '$', '%c\n', '~', '!', '\\p', '\\q', '\\pm', '\\z', '\\begin{en}', '\\end{en}', '\\', '\\(', '\\)', '\\begin', '\t']
 
@@ -50,6 +54,8 @@ def atoms_for(ctxname):
         return ATOMS_D
     if ctxname == 'E':
         return ATOMS_E
+    if ctxname == 'F':
+        return ATOMS_F
     return ATOMS_DEFAULT if ctxname == 'default' else ATOMS_CUSTOM
 
 def soup(rng, atoms, maxlen=10):
